@@ -755,33 +755,46 @@ func c03ValueText(r *Rng, depth int) string {
 
 var c03KnownNames []string
 
+// c03Known: which names of a fresh root the type reader knows (`readType` gives something else than a reference:
+// the built-in types; the directives too as long as the type reader finds them), and which of those may be the
+// type condition of an inline fragment (object, interface and union types — and, as coded at first, anything
+// known).  Both are read off the library's behaviour, not assumed.
 func c03Known(data []byte) T {
 	if c03KnownNames == nil {
 		root := ggql.NewRoot(nil)
 		_ = root.ParseString("scalar Zz")
-		seen := map[string]bool{}
+		var cands []string
 		for _, t := range root.Types() {
-			seen[t.Name()] = true
-		}
-		for _, d := range []string{"skip", "include", "deprecated", "go"} {
-			if root.GetType(d) != nil {
-				seen[d] = true
+			if t.Name() != "Zz" {
+				cands = append(cands, t.Name())
 			}
 		}
-		delete(seen, "Zz")
-		for k := range seen {
-			c03KnownNames = append(c03KnownNames, k)
+		cands = append(cands, "skip", "include", "deprecated", "go")
+		sort.Strings(cands)
+		for _, n := range cands {
+			_, err := root.ParseExecutableString("{ ... on " + n + " { __typename } }")
+			switch {
+			case err == nil:
+				c03KnownNames = append(c03KnownNames, n)
+				c03CompositeNames = append(c03CompositeNames, n)
+			case !strings.Contains(err.Error(), "not defined"):
+				c03KnownNames = append(c03KnownNames, n)
+			}
 		}
-		sort.Strings(c03KnownNames)
 	}
-	var ts []T
-	for _, n := range c03KnownNames {
-		if bytes.Contains(data, []byte(n)) {
-			ts = append(ts, S(n))
+	pick := func(names []string) T {
+		var ts []T
+		for _, n := range names {
+			if bytes.Contains(data, []byte(n)) {
+				ts = append(ts, S(n))
+			}
 		}
+		return LS(ts)
 	}
-	return LS(ts)
+	return N("known", pick(c03KnownNames), pick(c03CompositeNames))
 }
+
+var c03CompositeNames []string
 
 type c03Case struct {
 	job   *c03Job
